@@ -63,6 +63,15 @@ SK = {
     'default-int1-table-like-model-and-model': ("SELECT * FROM pred AS t JOIN {M}.pred AS m", {'int1': {'pred'}}, [('mindsdb', ['pred'])], None, {'default_namespace': 'int1'}),
     'default-int1-subquery-like-model': ("SELECT a FROM {B}.tbl2 WHERE a IN (SELECT b FROM pred2)", {'int2': {'tbl2'}, 'int1': {'pred2'}}, [], None, {'default_namespace': 'int1'}),
     'default-int2-cte-like-model': ("WITH c AS (SELECT b, id FROM pred) SELECT * FROM c JOIN {A}.tbl1 AS t ON c.id = t.id", {'int1': {'tbl1'}, 'int2': {'pred'}}, [], None, {'default_namespace': 'int2'}),
+    # integration.schema.table: only the FIRST name part decides where the table lives - also when the schema is named like another integration /
+    # a project and the table like a model, and when the first part is the default namespace
+    'schema-qualified-join': ("SELECT * FROM {A}.sch.tbl1 AS a JOIN {B}.tbl2 AS b ON a.id = b.id", {'int1': {'tbl1'}, 'int2': {'tbl2'}}, []),
+    'schema-named-like-other-integration': ("SELECT * FROM {A}.int2.tbl1 AS a JOIN {B}.tbl2 AS b ON a.id = b.id", {'int1': {'tbl1'}, 'int2': {'tbl2'}}, []),
+    'schema-named-like-project-table-like-model': ("SELECT * FROM {A}.proj.pred2 AS a JOIN {B}.tbl2 AS b ON a.id = b.id", {'int1': {'pred2'}, 'int2': {'tbl2'}}, []),
+    'schema-like-model-and-model-join': ("SELECT * FROM {A}.mindsdb.pred AS a JOIN {M}.pred AS m", {'int1': {'pred'}}, [('mindsdb', ['pred'])]),
+    'default-int1-qualified-schema-like-integration': ("SELECT * FROM {A}.int2.tbl1 AS a JOIN {B}.tbl2 AS b ON a.id = b.id", {'int1': {'tbl1'}, 'int2': {'tbl2'}}, [], None, {'default_namespace': 'int1'}),
+    'default-int1-qualified-schema-like-files': ("SELECT * FROM {A}.files.f1 AS a JOIN {B}.tbl2 AS b ON a.id = b.id", {'int1': {'f1'}, 'int2': {'tbl2'}}, [], None, {'default_namespace': 'int1'}),
+    'default-int1-qualified-schema-like-project-model-join': ("SELECT * FROM {A}.mindsdb.tbl1 AS a JOIN {M}.pred AS m", {'int1': {'tbl1'}}, [('mindsdb', ['pred'])], None, {'default_namespace': 'int1'}),
     'two-models': ("SELECT * FROM {A}.tbl1 AS t JOIN {M}.pred AS m JOIN {P}.pred2 AS m2", {'int1': {'tbl1'}}, [('mindsdb', ['pred']), ('proj', ['pred2'])]),
     'select-from-model': ("SELECT p FROM {M}.pred WHERE x = 1", {}, [('mindsdb', ['pred'])]),
     'ts-model-join': ("SELECT * FROM {A}.tbl1 AS t JOIN {M}.tspred AS m WHERE t.ts > LATEST", {'int1': {'tbl1'}}, [('mindsdb', ['tspred'])]),
@@ -186,6 +195,8 @@ def leaf(name, bits_a, bits_b, bits_m, as_dicts, legacy_meta):
     # ---- C10
     if repr(plan.steps).lower() != repr(canon.steps).lower():
         p10.append('plan differs from the plan of the canonical spelling / catalog form')
+    # names written as integration.schema.table: what stays after the integration part is removed may itself look like a catalog name
+    remainders = {(a_.lower(), b_.lower()) for a_, b_ in re.findall(r'\{[AB]\}\.(\w+)\.(\w+)', tmpl)}
     seen = {}
     for f in PL.fetches(plan):
         integ = f.integration
@@ -194,7 +205,7 @@ def leaf(name, bits_a, bits_b, bits_m, as_dicts, legacy_meta):
             continue
         for t in PL.tables_of(f.query):
             parts = [str(x) for x in t.parts]
-            if parts[0].lower() in CATALOG_NAMES and len(parts) > 1:
+            if parts[0].lower() in CATALOG_NAMES and len(parts) > 1 and (parts[0].lower(), parts[1].lower()) not in remainders:
                 p10.append('query sent to %s still carries qualifier %s: %s' % (integ, parts[0], f.query))
             tname = parts[-1].lower()
             if tname in exp_fetch[integ]:
@@ -205,7 +216,7 @@ def leaf(name, bits_a, bits_b, bits_m, as_dicts, legacy_meta):
                 p10.append('table %s is fetched from %s but belongs to another integration' % (tname, integ))
         # column qualifiers
         for m in re.finditer(r'\b(int1|int2|apidb)\s*\.', str(f.query), flags=re.I):
-            if m.group(1).lower() in CATALOG_NAMES:
+            if m.group(1).lower() in CATALOG_NAMES and m.group(1).lower() not in {a_ for a_, _ in remainders}:
                 p10.append('query sent to %s mentions qualifier %s: %s' % (integ, m.group(1), f.query))
                 break
     for integ, tabs in exp_fetch.items():
